@@ -236,6 +236,7 @@ MUST_FIRE += [
     ("m85", ["C16"], ["K7"], rep1(S + "find_local_clifford_layer.py", "        elif c == [0, 1, 1, 0]:  # H\n            qc.h(i)", "        elif c == [0, 1, 1, 0]:  # H\n            qc.h(0)"), "gate of qubit i lands on qubit 0"),
     ("m86", ["C16"], ["K6"], rep1(S + "find_local_clifford_layer.py", "c2 = row[i*4+2] | row[i*4+3]", "c2 = row[2] | row[3]"), "filter looks at qubit 0's coefficients for every qubit"),
     ("m87", ["C11"], ["W11"], rep1(S + "tomography.py", "circuit_result = CircuitResult(counts, qubits)  # type: ignore", "circuit_result = CircuitResult(counts)  # type: ignore"), "marginalisation skipped in the fitter"),
+    ("m88", ["C13"], ["A4"], rep1(S + "stabilizer.py", "            if self.R.dtype != np.int8:\n                self.R = self.R.astype(np.int8)\n            if self.S.dtype != np.int8:\n                self.S = self.S.astype(np.int8)\n        elif isinstance(data, list):", "            if self.R.dtype != np.int8:\n                self.R = self.R.astype(np.int8)\n            if self.S.dtype != np.int8:\n                self.S = self.S.astype(np.int8)\n            self.R &= 1\n            self.S &= 1\n        elif isinstance(data, list):"), "matrix branch of the constructor reduces the caller's int8 arrays in place"),
     ("m72", ["C13"], ["A3"], rep1(S + "circuit_lookup.py", "result.circuits = [circuit.copy() for circuit in self.circuits]", "result.circuits = list(self.circuits)"), "fresh list of the cached circuits"),
 ]
 
@@ -268,6 +269,7 @@ MUST_STAY_SILENT = [
                                          rep1(S + "stabilizer_circuits.py", "def _get_preparation_circuit_modulo_phase(", "def _product_circuit(stabilizer):\n    qc = QuantumCircuit(stabilizer.num_qubits)\n    for q in range(stabilizer.num_qubits):\n        if stabilizer.R[q, q]:\n            qc.h(q)\n    return qc\n\n\ndef _get_preparation_circuit_modulo_phase(")), False, "class-0 fast path: cost and connectivity unaffected (state correctness is not C04/C02)"),
     ("s21", ["C13"], multi(rep1(S + "lc_classes.py", "def index_of_first_set_bit(bitstring: int):", "@functools.lru_cache(maxsize=None)\ndef index_of_first_set_bit(bitstring: int) -> int:"), rep1(S + "lc_classes.py", "import itertools\n", "import itertools\nimport functools\n")), False, "memoised pure function returning an int"),
     ("s24", ["C02", "C04", "C07"], rep1(S + "circuit_lookup.py", "            if instruction[1] == 'x':\n                qc.cx(qubits[0], qubits[1])\n            elif instruction[1] == 'z':\n                qc.cz(qubits[0], qubits[1])\n            else:\n                assert False, \"Invalid instruction name\"", "            assert instruction[1] in 'xz', \"Invalid instruction name\"\n            getattr(qc, instruction[:2])(qubits[0], qubits[1])"), True, "loader dispatches through getattr: outside the vocabulary, must end in exit 2, never in an alarm"),
+    ("s25", ["C07"], rep1(S + "stabilizer.py", "            if self.R.dtype != np.int8:\n                self.R = self.R.astype(np.int8)\n            if self.S.dtype != np.int8:\n                self.S = self.S.astype(np.int8)\n        elif isinstance(data, list):", "            if self.R.dtype != np.int8:\n                self.R = self.R.astype(np.int8)\n            if self.S.dtype != np.int8:\n                self.S = self.S.astype(np.int8)\n            self.R &= 1\n            self.S &= 1\n        elif isinstance(data, list):"), False, "the in-place reduction happens only in the tuple branch: a circuit passed to compress is not touched (C07 holds, C13 does not)"),
     ("s16", ["C09", "C13", "C02"], rep1(S + "mub_circuits.py", "return circuit_lookup.mub_circuit_lookup(num_qubits, connectivity).circuits", "return [c for c in circuit_lookup.mub_circuit_lookup(num_qubits, connectivity).circuits]"), False, "identity comprehension"),
     ("s15", ["C13"], rep1(S + "graph.py", "    def copy(self):\n        result = Graph(self.num_vertices)", "    def copy(self):\n        # fresh object\n        result = Graph(self.num_vertices)"), False, "comment"),
 ]
